@@ -82,6 +82,10 @@ def same(a, b, path, diffs, tol=0.0):
         if set(a) != set(b):
             diffs.append((path + ".keys", sorted(a), sorted(b)))
             return
+        if list(a) != list(b):
+            # mappings are ordered (e.g. tags in the order given to --bam_tags, which is the order they are printed in)
+            diffs.append((path + ".key-order", list(a)[:6], list(b)[:6]))
+            return
         for k in a:
             same(a[k], b[k], "%s[%r]" % (path, k), diffs, tol)
     elif hasattr(a, "__dict__") and not isinstance(a, type) and not hasattr(a, "name"):
